@@ -132,6 +132,9 @@ func (x *E9) eval(e ast.Expr, env map[string]int64) (e9Val, error) {
 	if c, ok := constInt(info, e); ok {
 		return e9Val{i: c}, nil
 	}
+	if isNil(info, e) {
+		return e9Val{i: 0}, nil
+	}
 	if tv, ok := info.Types[e]; ok && tv.Value != nil && tv.Value.Kind() == constant.Bool {
 		return e9Val{b: constant.BoolVal(tv.Value), isBool: true}, nil
 	}
